@@ -138,7 +138,6 @@ func scenRaceAPI(x *Ctx) {
 	x.NT("race-api")
 }
 
-
 // scenRaceGRPC: three real nodes with the bundled gRPC transport and default storages on loopback.
 func scenRaceGRPC(x *Ctx) {
 	r := x.R
